@@ -9,6 +9,8 @@ pub enum IcOp {
     Extend(Vec<usize>),
     Clear,
     Observe,
+    /// serialise (serde_json), deserialise, continue with the deserialised container; observe both serialised states
+    Serde,
 }
 
 pub fn parse_ic_op(s: &str) -> Result<IcOp, String> {
@@ -24,6 +26,7 @@ pub fn parse_ic_op(s: &str) -> Result<IcOp, String> {
         },
         ["c"] => IcOp::Clear,
         ["o"] => IcOp::Observe,
+        ["s"] => IcOp::Serde,
         _ => return Err(format!("bad ic op {s}")),
     })
 }
@@ -38,9 +41,23 @@ fn res_n(r: Option<usize>) -> U {
     }
 }
 
+fn serde_step<C: serde::Serialize + for<'a> serde::Deserialize<'a>>(c: &mut C) -> Option<U> {
+    caught(|| {
+        let before = crate::state::state_u(&*c);
+        let text = serde_json::to_string(&*c).expect("serialize");
+        let back: C = serde_json::from_str(&text).expect("deserialize");
+        let after = crate::state::state_u(&back);
+        (back, U::L(vec![before, after]))
+    })
+    .map(|(back, u)| {
+        *c = back;
+        u
+    })
+}
+
 fn run_container<C>(ops: &[IcOp]) -> Vec<Option<U>>
 where
-    C: flatcontainer::impls::index::IndexContainer<usize>,
+    C: flatcontainer::impls::index::IndexContainer<usize> + serde::Serialize + for<'a> serde::Deserialize<'a>,
 {
     use flatcontainer::impls::index::IndexContainer as IC;
     let mut c = C::default();
@@ -50,6 +67,7 @@ where
             IcOp::Push(x) => caught(|| IC::push(&mut c, *x)).map(|_| U::None),
             IcOp::Extend(l) => caught(|| IC::extend(&mut c, l.clone().into_iter())).map(|_| U::None),
             IcOp::Clear => caught(|| Storage::clear(&mut c)).map(|_| U::None),
+            IcOp::Serde => serde_step(&mut c),
             IcOp::Observe => caught(|| {
                 let n = Storage::len(&c);
                 let e = Storage::is_empty(&c);
@@ -122,6 +140,7 @@ fn run_stride(ops: &[IcOp]) -> Vec<Option<U>> {
                 }
             }
             IcOp::Extend(_) => Some(U::None),
+            IcOp::Serde => serde_step(&mut s),
             IcOp::Clear => {
                 s.clear();
                 Some(U::None)
